@@ -27,8 +27,13 @@ RULE = ("per transport (mrp, companion, http, rtsp): every interleaving of 2 req
         "permutation of the responses x an unsolicited message at every position x a timeout of every request at "
         "every position, in two send layouts (all first / staggered); plus 1000 (thorough: 8000) random scripts per transport with up to 5 requests "
         "(duplicates, unknown and not-yet-allocated identifiers, Companion XID burns) from ctx.rng. "
+        "MRP listener sets vary per script (the unfiltered witness on every type plus up to 5 subscriptions: several "
+        "listeners per type, the same function / bound method / coroutine subscribed repeatedly for one type with "
+        "disjoint filters, the same callable on several types); plus 400 (thorough: 4000) bare MessageDispatcher cases "
+        "(random subscription set x up to 6 messages, types without subscribers included) against the `disp` model. "
         "non-trivial = at least 2 requests outstanding at once and (a response out of send order, a timeout, or a "
-        "message that answers no outstanding request); distinct = (transport, base, script)")
+        "message that answers no outstanding request), dispatcher cases: a callable subscribed more than once; "
+        "distinct = (transport, base, script, subscriptions)")
 ASSUMPTIONS = [
     "event granularity: the event loop runs until idle between two environment events (a response and a timer "
     "expiry never race inside one loop iteration)",
@@ -50,7 +55,7 @@ TRUSTED = [
     "harness.core.vloop virtual-time loop",
 ]
 
-PROPS_FILES = ["PyatvModel/Props/C03.lean", "PyatvModel/Props/C03Rtsp.lean"]
+PROPS_FILES = ["PyatvModel/Props/C03.lean", "PyatvModel/Props/C03Rtsp.lean", "PyatvModel/Props/C03Disp.lean"]
 KNOWN_SIG = "http-fifo:late-response-after-timeout"
 HTTP_WITNESS = "s,t0,s,rn:0"           # = PyatvModel.Props.C03.C03_http_counterexample
 TRANSPORTS = ["mrp", "companion", "http", "rtsp"]
@@ -348,6 +353,118 @@ def is_perm_script(transport, base, evs):
     return sorted(map(repr, evs[n:])) == sorted(repr(resp(transport, base, i)) for i in range(n))
 
 
+# ------------------------------------------------------------------------------ subscriptions
+
+DEFAULT_SUBS = "0.0.a,1.0.a,2.0.a,0.2.a,1.2.a,2.2.a"
+NTYPES = 3
+# callables: 0 = plain function (the unfiltered witness), 1 = plain function, 2 = coroutine
+# function, 3 = bound method, 4 = bound coroutine method (a fresh bound-method object is made for
+# every listen_to call: equal and hash-equal, not identical)
+NCALLABLES = 5
+
+
+def parse_subs(text):
+    out = []
+    for t in ([] if text in ("", "-") else text.split(",")):
+        ty, lid, f = t.split(".")
+        out.append((int(ty), int(lid), f))
+    return out
+
+
+def accepts(f, v):
+    if f == "a":
+        return True
+    d, r = f[1:].split("r")
+    return v % int(d) == int(r)
+
+
+def expected_calls(subs, ty, v):
+    """the property: one call per subscription of this type whose filter accepts the message"""
+    return sorted(lid for (t, lid, f) in subs if t == ty and accepts(f, v))
+
+
+def random_subs(rng, witness=True):
+    """listener sets: the witness on every type, several listeners per type, the same callable
+    subscribed more than once for one type with different (disjoint) filters, plain / coroutine /
+    bound-method callables, the same callable on several types"""
+    subs = [(t, 0, "a") for t in range(NTYPES)] if witness else []
+    used = {}
+    for _ in range(rng.randint(0, 5)):
+        if used and rng.chance(0.5):
+            ty, lid = rng.choice(sorted(used))          # the same callable again
+        else:
+            ty, lid = rng.randrange(NTYPES), rng.randint(1, NCALLABLES - 1)
+        res = used.setdefault((ty, lid), set())
+        if "a" in res or len(res) == 3:
+            continue
+        free = [r for r in range(3) if r not in res]
+        if not res and rng.chance(0.3):
+            res.add("a")
+            subs.append((ty, lid, "a"))
+        else:
+            r = rng.choice(free)
+            res.add(r)
+            subs.append((ty, lid, "m3r%d" % r))
+    rng.shuffle(subs)
+    return ",".join("%d.%d.%s" % x for x in subs) or "-"
+
+
+class Callables:
+    """the pool of listener callables; every call is reported as record(lid, message)"""
+
+    def __init__(self, record):
+        def plain0(message):
+            record(0, message)
+
+        def plain1(message):
+            record(1, message)
+
+        async def coro2(message):
+            record(2, message)
+
+        class Obj:
+            def h(self, message):
+                record(3, message)
+
+            async def ah(self, message):
+                record(4, message)
+
+        self.obj = Obj()
+        self.funcs = {0: plain0, 1: plain1, 2: coro2}
+
+    def get(self, lid):
+        if lid == 3:
+            return self.obj.h
+        if lid == 4:
+            return self.obj.ah
+        return self.funcs[lid]
+
+
+async def run_disp(subs_text, msgs_text):
+    """a bare MessageDispatcher: subscriptions, then one dispatch per message"""
+    from pyatv.core.protocol import MessageDispatcher
+
+    calls = []
+    cur = []
+    cs = Callables(lambda lid, message: cur.append(lid))
+    d = MessageDispatcher()
+    for ty, lid, f in parse_subs(subs_text):
+        if f == "a":
+            d.listen_to(ty, cs.get(lid))
+        else:
+            d.listen_to(ty, cs.get(lid), (lambda ff: lambda m: accepts(ff, m))(f))
+    for m in msgs_text.split(","):
+        ty, v = (int(x) for x in m.split("."))
+        cur = []
+        calls.append(cur)
+        try:
+            d.dispatch(ty, v)
+        except Exception as ex:
+            cur.append("raised:" + type(ex).__name__)
+        await settle()
+    return calls
+
+
 # ------------------------------------------------------------------------------ adapters
 
 class Obs:
@@ -364,7 +481,7 @@ class Obs:
 
 
 class MrpAdapter:
-    def __init__(self, obs, base):
+    def __init__(self, obs, base, subs=DEFAULT_SUBS):
         from pyatv.protocols.mrp import messages, protobuf
         from pyatv.protocols.mrp import protocol as mp
 
@@ -389,20 +506,18 @@ class MrpAdapter:
         self.prot = mp.MrpProtocol(Conn(), None, None, None)
         self.prot._state = mp.ProtocolState.READY
         self.types = [protobuf.GENERIC_MESSAGE, protobuf.SET_STATE_MESSAGE, protobuf.VOLUME_DID_CHANGE_MESSAGE]
-        self.listeners = {}
-        for ti, t in enumerate(self.types):
-            def sync_l(message, lid=("sync", ti)):
-                adapter.obs.add("dsp", lid, adapter.mkey(message.identifier), adapter.payload(message))
-
-            async def async_l(message, lid=("async", ti)):
-                adapter.obs.add("dsp", lid, adapter.mkey(message.identifier), adapter.payload(message))
-
-            self.prot.listen_to(t, sync_l)
-            self.prot.listen_to(t, async_l)
-            self.listeners[ti] = [("sync", ti), ("async", ti)]
+        self.subs = parse_subs(subs)
+        self.callables = Callables(lambda lid, message: adapter.obs.add(
+            "dsp", lid, adapter.mkey(message.identifier), adapter.payload(message)))
+        for ty, lid, f in self.subs:
+            if f == "a":
+                self.prot.listen_to(self.types[ty], self.callables.get(lid))
+            else:
+                self.prot.listen_to(self.types[ty], self.callables.get(lid),
+                                    (lambda ff: lambda m: accepts(ff, adapter.payload(m)))(f))
 
     def expected_listeners(self, k, v):
-        return self.listeners[self.type_of.get(v, 0)]
+        return expected_calls(self.subs, self.type_of.get(v, 0), v)
 
     def payload(self, message):
         try:
@@ -630,7 +745,7 @@ async def settle():
         await asyncio.sleep(0)
 
 
-async def run_script(transport, base, events):
+async def run_script(transport, base, events, subs=DEFAULT_SUBS):
     """Run one script on the real code; returns the per-event observations."""
     loop = asyncio.get_event_loop()
     t0 = loop.time()
@@ -651,7 +766,7 @@ async def run_script(transport, base, events):
 
     obs.begin()
     if transport == "mrp":
-        ad = MrpAdapter(obs, base)
+        ad = MrpAdapter(obs, base, subs or DEFAULT_SUBS)
     elif transport == "companion":
         ad = CompanionAdapter(obs, base)
     elif transport == "http":
@@ -889,18 +1004,29 @@ def nontrivial(events):
 def gen_cases(ctx):
     cases = []
     rng = ctx.rng
-    cases.append(("http", 0, parse(HTTP_WITNESS)))
+    cases.append(("http", 0, parse(HTTP_WITNESS), None))
     for transport in TRANSPORTS:
         base = 0 if transport != "companion" else rng.fork("base", transport).randint(0, 65536)
+        rs = rng.fork("subs", transport)
+
+        def subs():
+            # MRP: the listener set varies from script to script
+            return random_subs(rs) if transport == "mrp" else None
+
         for evs in interleavings2(transport, base):
-            cases.append((transport, base, evs))
+            cases.append((transport, base, evs, subs()))
         for n in ([3, 4] if ctx.thorough else [3]):
             for evs in structured(transport, base, n, rng.fork("stagger", transport, n)):
-                cases.append((transport, base, evs))
+                cases.append((transport, base, evs, subs()))
         r2 = rng.fork("random", transport)
         for _ in range(ctx.scale(1000, 8000)):
             b = 0 if transport != "companion" else r2.randint(0, 65536)
-            cases.append((transport, b, random_script(transport, b, r2)))
+            cases.append((transport, b, random_script(transport, b, r2), subs()))
+    # the dispatcher alone: subscription sets x messages
+    r3 = rng.fork("disp")
+    for _ in range(ctx.scale(400, 4000)):
+        msgs = ",".join("%d.%d" % (r3.randrange(NTYPES + 1), r3.randrange(12)) for _ in range(r3.randint(1, 6)))
+        cases.append(("disp", 0, msgs, random_subs(r3, witness=r3.chance(0.5))))
     return cases
 
 
@@ -911,9 +1037,16 @@ def execute(cases):
     results = []
 
     async def batch(chunk):
-        for transport, base, evs in chunk:
+        for transport, base, evs, subs in chunk:
+            if transport == "disp":
+                try:
+                    calls = await run_disp(subs, evs)
+                except Exception as ex:
+                    calls = [["raised:" + type(ex).__name__]]
+                results.append((transport, base, evs, calls, subs))
+                continue
             try:
-                steps, ad = await run_script(transport, base, evs)
+                steps, ad = await run_script(transport, base, evs, subs)
             except Exception as ex:  # the harness must not crash on changed code
                 steps, ad = [[("raised", type(ex).__name__)]] + [[] for _ in evs[1:]], None
             results.append((transport, base, evs, steps, ad))
@@ -924,14 +1057,57 @@ def execute(cases):
     return results
 
 
+def disp_oracle(subs_text, msgs_text, calls):
+    """per (callable, message): number of calls = number of its subscriptions for the message's
+    type whose filter accepts (filters of one callable are generated disjoint: 0 or 1)"""
+    problems = []
+    subs = parse_subs(subs_text)
+    for m, got in zip(msgs_text.split(","), calls):
+        ty, v = (int(x) for x in m.split("."))
+        want = expected_calls(subs, ty, v)
+        if sorted(map(str, got)) != sorted(map(str, want)):
+            problems.append(("dispatcher:subscription-not-called-once",
+                             "message %s: callables called %s, subscriptions that accept it %s" % (m, got, want)))
+    return problems
+
+
 def run(ctx, only=None):
     cases = only if only is not None else gen_cases(ctx)
     results = execute(cases)
-    answers = ctx.lean([model_line(t, b, evs) for (t, b, evs, _s, _a) in results])
+    lines = [("disp %s %s" % (r[4], r[2])) if r[0] == "disp" else model_line(r[0], r[1], r[2]) for r in results]
+    answers = ctx.lean(lines)
     reported = {}
-    for (transport, base, evs, steps, ad), ans in zip(results, answers):
+
+    def report(sig, case, observed, what):
+        ctx.note("oracle:" + sig)
+        n = reported.get(sig, 0)
+        reported[sig] = n + 1
+        if n < 3:
+            ctx.fail(sig, case, observed, "see property C03", what)
+
+    for res, ans in zip(results, answers):
+        if res[0] == "disp":
+            _t, _b, msgs, calls, subs = res
+            case = {"transport": "disp", "base": 0, "script": msgs, "subs": subs}
+            impl = ";".join(",".join(sorted(map(str, c))) or "-" for c in calls)
+            model = ";".join(",".join(sorted(x.split(".")[1] for x in m.split(","))) if m != "-" else "-"
+                             for m in ans.split(";"))
+            psubs = parse_subs(subs)
+            multi = len(set((t, l) for t, l, _f in psubs)) < len(psubs)
+            ctx.note("transport:disp")
+            ctx.note("disp-subs:%d" % min(8, len(psubs)))
+            ctx.case(["disp", subs, msgs], multi, sample={"transport": "disp", "subs": subs, "msgs": msgs, "calls": impl})
+            if impl != model:
+                ctx.disagree(case, impl, ans, where="MessageDispatcher calls per message")
+            ctx.validated()
+            for sig, what in disp_oracle(subs, msgs, calls):
+                report(sig, case, impl, what)
+            continue
+        transport, base, evs, steps, ad = res
         script = show(evs)
         case = {"transport": transport, "base": base, "script": script}
+        if transport == "mrp" and ad is not None:
+            case["subs"] = ",".join("%d.%d.%s" % x for x in ad.subs)
         nreq = sum(1 for e in evs if e[0] in SENDS)
         ctx.note("transport:" + transport)
         ctx.note("requests:%d" % nreq)
@@ -943,8 +1119,8 @@ def run(ctx, only=None):
             impl = [canon_step(ad, e, s) for e, s in zip(evs, steps)]
         model = canon_model(ans, transport)
         outcomes = sorted(t for s in impl for t in s if not t.startswith("snt"))
-        ctx.case([transport, base, script], nontrivial(evs),
-                 sample={"transport": transport, "base": base, "script": script, "observed": outcomes})
+        ctx.case([transport, base, script, case.get("subs")], nontrivial(evs),
+                 sample=dict(case, observed=outcomes))
         for s in impl:
             for t in s:
                 ctx.note("obs:" + t.split(":")[0].split("#")[0])
@@ -955,11 +1131,7 @@ def run(ctx, only=None):
             ctx.fail(transport + ":harness-could-not-run", case, impl, "script runs", "real code raised in setup")
             continue
         for sig, what in oracle(transport, base, evs, steps, ad, is_perm_script(transport, base, evs)):
-            ctx.note("oracle:" + sig)
-            n = reported.get(sig, 0)
-            reported[sig] = n + 1
-            if n < 3:
-                ctx.fail(sig, case, ";".join(",".join(s) or "-" for s in impl), "see property C03", what)
+            report(sig, case, ";".join(",".join(s) or "-" for s in impl), what)
 
 
 def widen(ctx):
@@ -967,8 +1139,11 @@ def widen(ctx):
 
 
 def _rerun(case):
+    if case["transport"] == "disp":
+        res = execute([("disp", 0, case["script"], case["subs"])])
+        return disp_oracle(case["subs"], case["script"], res[0][3])
     evs = parse(case["script"])
-    res = execute([(case["transport"], case["base"], evs)])
+    res = execute([(case["transport"], case["base"], evs, case.get("subs"))])
     transport, base, evs, steps, ad = res[0]
     if ad is None:
         return [("%s:harness-could-not-run" % transport, "setup raised")]
@@ -980,18 +1155,35 @@ def replay(ctx, failure):
 
 
 def shrink(ctx, failure):
-    """greedy removal of events while the same sig still fails on the real code"""
+    """greedy removal of events (dispatcher cases: messages, then subscriptions) while the same
+    sig still fails on the real code"""
     case = dict(failure["case"])
-    evs = parse(case["script"])
+    disp = case["transport"] == "disp"
+
+    def items(c, field):
+        if field == "subs" or disp:
+            return [] if c[field] in ("", "-") else c[field].split(",")
+        return [tok(e) for e in parse(c[field])]
+
+    fields = ["script"] + (["subs"] if case.get("subs") else [])
     changed = True
-    while changed and len(evs) > 1:
+    while changed:
         changed = False
-        for i in range(len(evs)):
-            cand = evs[:i] + evs[i + 1:]
-            c2 = dict(case, script=show(cand))
-            probs = [p for p in _rerun(c2) if p[0] == failure["sig"]]
-            if probs:
-                evs, case, changed = cand, c2, True
-                failure = dict(failure, case=c2, what=probs[0][1], observed="(shrunk) " + show(cand))
+        for field in fields:
+            its = items(case, field)
+            if len(its) <= 1:
+                continue
+            for i in range(len(its)):
+                cand = its[:i] + its[i + 1:]
+                c2 = dict(case)
+                c2[field] = ",".join(cand) or "-"
+                if case["transport"] == "http" and not http_script_ok(parse(c2["script"])):
+                    continue      # keep the device discipline the oracle's rule is stated for
+                probs = [p for p in _rerun(c2) if p[0] == failure["sig"]]
+                if probs:
+                    case, changed = c2, True
+                    failure = dict(failure, case=c2, what=probs[0][1], observed="(shrunk)")
+                    break
+            if changed:
                 break
     return failure
